@@ -61,6 +61,15 @@ BORROW = [
     ('try_join', 'let cell = std::cell::Cell::new(0i64); let r = try_join! { Some(Some(1_i64)) => >>> ?? |x| cell.set(cell.get() + x.unwrap_or(0)) <<< |> |x| x + 1, Some(2_i64) }; r.map(|(a, b)| a + b).unwrap_or(-1) + cell.get()', 5),
     ('join', 'let t = Tok::new(3); let r = join! { Some(Some(t)) => >>> |> |t| bump(t, 2) <<< ~|> |t| bump(t, 1), { Some(Tok::new(1)) } }; match r { (Some(a), Some(b)) => a.0 + b.0, _ => -1 }', 7),
     ('join_async', 'let rc = std::rc::Rc::new(5_i64); let f = join_async! { futures::future::ready(rc) |> |r| *r + 1, futures::future::ready(Tok::new(4)) ~|> |t| bump(t, 1) }; let (a, b) = futures::executor::block_on(f); a + b.0', 11),
+    # non-spawning async macros run every branch on the caller's task: a step with ONE active branch may hold !Send values (no `.boxed()`)
+    ('join_async', 'let rc = std::rc::Rc::new(5_i64); let f = join_async! { futures::future::ready(rc) |> |r| *r + 1 }; futures::executor::block_on(f)', 6),
+    ('join_async', 'let rc = std::rc::Rc::new(2_i64); let f = join_async! { futures::future::ready(rc) ~|> |r| *r * 10, futures::future::ready(3_i64) }; let (a, b) = futures::executor::block_on(f); a + b', 23),
+    ('try_join_async', 'let cell = std::cell::Cell::new(0i64); let v = { let c = &cell; let f = try_join_async! { futures::future::ready(Ok::<i64, i64>(7)) |> |v| v.map(|v| { c.set(v); v + 1 }) }; futures::executor::block_on(f).unwrap_or(-1) }; v + cell.get()', 15),
+    ('try_join_async', 'let rc = std::rc::Rc::new(4_i64); let f = try_join_async! { futures::future::ready(Ok::<i64, i64>(1)), futures::future::ready(Ok::<std::rc::Rc<i64>, i64>(rc)) ~|> |r| r.map(|r| *r + 1) ~=> |v| futures::future::ready(Ok::<i64, i64>(v * 2)) }; futures::executor::block_on(f).map(|(a, b)| a + b).unwrap_or(-1)', 11),
+    # wrapper closures of the non-spawning async macros borrow: two nested chains (or a nested chain and a later step) use the same move-only value
+    ('join_async', 'let t = Tok::new(10); let f = join_async! { futures::future::ready(Some(1_i64)) |> >>> |> |v| v + t.0 <<<, futures::future::ready(Some(2_i64)) |> >>> |> |v| v * t.0 <<< }; match futures::executor::block_on(f) { (Some(a), Some(b)) => a + b, _ => -1 }', 31),
+    ('try_join_async', 'let t = Tok::new(3); let f = try_join_async! { futures::future::ready(Ok::<i64, i64>(4)) |> >>> |> |v| v + t.0 <<< ~|> |v| v.map(|v| v * t.0) }; futures::executor::block_on(f).unwrap_or(-1)', 21),
+    ('join_async', 'let t = Tok::new(2); let f = join_async! { futures::future::ready(Some(Some(1_i64))) |> >>> => >>> |> |v| v + t.0 <<< <<< ~|> |v| v.map(|v| v * t.0), futures::future::ready(5_i64) }; match futures::executor::block_on(f) { (Some(a), b) => a + b, _ => -1 }', 11),
     ('try_join_async', 'let mut n = 0i64; let v = { let nref = &mut n; let f = try_join_async! { futures::future::ready(Ok::<i64, i64>(1)) |> |r| { *nref += 1; r }, futures::future::ready(Ok::<Tok, i64>(Tok::new(2))) }; let r = futures::executor::block_on(f); r.map(|(a, b)| a + b.0).unwrap_or(-1) }; v + n', 4),
 ]
 
